@@ -366,8 +366,38 @@ func optSfx(n *dnode) string {
 	return ""
 }
 
+// longForm: a third of the aggregate fields is declared in the long form with an explicit "@incell" key — `false`
+// (the default, written out) for cross-node aggregates, `true` for in-cell lists (seed C09-4: presence of the key
+// was taken for `true`)
+func longForm(n *dnode) bool {
+	h := 0
+	for _, c := range []byte(n.name) {
+		h += int(c)
+	}
+	return h%3 == 0
+}
+
 func (w *ywriter) schemaFields(nodes []*dnode, ind string) {
 	for _, n := range nodes {
+		if longForm(n) {
+			switch n.kind {
+			case "slist", "ilist":
+				w.ln(ind + n.name + ":")
+				w.ln(ind + `  "@type": ` + yqt("["+n.typ+"]"+optSfx(n)))
+				w.ln(ind + `  "@incell": ` + map[bool]string{true: "true", false: "false"}[n.kind == "ilist"])
+				continue
+			case "smap":
+				w.ln(ind + n.name + ":")
+				w.ln(ind + `  "@type": ` + yqt("map<"+n.ktyp+", "+n.typ+">"+optSfx(n)))
+				w.ln(ind + `  "@incell": false`)
+				continue
+			}
+		}
+		incellFalse := func() {
+			if longForm(n) {
+				w.ln(ind + `  "@incell": false`)
+			}
+		}
 		switch n.kind {
 		case "scalar":
 			w.ln(ind + n.name + ": " + yqt(n.typ+optSfx(n)))
@@ -382,15 +412,18 @@ func (w *ywriter) schemaFields(nodes []*dnode, ind string) {
 		case "struct":
 			w.ln(ind + n.name + ":")
 			w.ln(ind + `  "@type": ` + yqt("{"+n.tname+"}"+optSfx(n)))
+			incellFalse()
 			w.schemaFields(n.sub, ind+"  ")
 		case "mlist":
 			w.ln(ind + n.name + ":")
 			w.ln(ind + `  "@type": ` + yqt("["+n.tname+"]"+optSfx(n)))
+			incellFalse()
 			w.ln(ind + `  "@struct":`)
 			w.schemaFields(n.sub, ind+"    ")
 		case "mmap":
 			w.ln(ind + n.name + ":")
 			w.ln(ind + `  "@type": ` + yqt("map<"+n.ktyp+", "+n.tname+">"+optSfx(n)))
+			incellFalse()
 			w.ln(ind + `  "@struct":`)
 			w.schemaFields(n.sub, ind+"    ")
 		}
